@@ -263,3 +263,29 @@ func verifFoldEq(a, b string) bool {
 	}
 	return true
 }
+
+// verifHarness_FamQuote: a family sentence in which one keyword / pseudo keyword
+// occurrence (solver-chosen) is written with back quotes.  Such a spelling is an
+// ordinary identifier: it is normally rejected; where the implementation
+// accepts it, every property still has to hold on the result.
+func verifHarness_FamQuote(prop, fam, budget, maxList int) {
+	b := verifNewB(maxList, budget)
+	verifFamilies[fam](b)
+	b2 := b.again()
+	b2.quoteAt = verifChoice(b.nword)
+	verifFamilies[fam](b2)
+	x := b2.text
+	verifObserve("x", x)
+	switch prop {
+	case 1:
+		verifC01(x, b.entry)
+	case 2:
+		verifC02(x, b.entry)
+	case 4:
+		verifC04(x, b.entry)
+	case 5:
+		verifC05(x, b.entry)
+	case 6:
+		verifC06(x, b.entry)
+	}
+}
